@@ -18,7 +18,7 @@ func init() {
 		Run:       runC05,
 		Technique: "static analysis: field-writer ownership, transition table extracted from call sites vs the documented state machine, goroutine/command confinement over the VTA call graph, must-pass-through guards in NextJob and CmdTryMerge, message-switch exhaustiveness",
 		Explanation: "Safety/liveness over all interleavings is a model-checking question and is NOT decided. Decided are the structural mechanisms the property names: " +
-			"(R1) unit states are written only through the guarded transition function (plus the two documented direct writers), and the (to ← allowed-from) table extracted from the call sites equals the documented machine, any other transition panicking; " +
+			"(R1) unit states are written only through the guarded transition function (plus the two documented direct writers), and the (to ← allowed-from) table extracted from the call sites equals the documented machine, any other transition panicking; the shadowing pass relabels a unit Shadowed only when it is still Pending (or already Shadowed) and only behind a later stage that still has a job to run; worker slots follow Free → Working → Free under source-state guards; " +
 			"(R2) scheduler state (unit states, segment offsets, completed segment, worker states, walker flags, completion flags) is never written from a goroutine, an errgroup task or an asynchronous command closure — only from the single-threaded Update loop; " +
 			"(R3) NextJob schedules a unit only after dependenciesCompleted(unit) held and the unit was Pending; " +
 			"(R4) CmdTryMerge merges only the stage's next contiguous unit, only when its partial is present and the previous unit is complete; R4 also requires that whoever marks a store-stage unit Completed (merge finished, full snapshot found in storage) re-scans the merge frontier forward over already Completed units before returning, so the frontier can never be stranded on a Completed unit; " +
